@@ -10,6 +10,7 @@ import (
 	"math"
 	"net/http"
 	"net/http/httptest"
+	"net/url"
 	"os"
 	"reflect"
 	"strings"
@@ -192,7 +193,7 @@ func runCase(c Case) error {
 	}
 	target := "/api/v1/x"
 	if c.Callback != "" {
-		target += "?callback=" + c.Callback
+		target += "?callback=" + url.QueryEscape(c.Callback)
 	}
 	rr := httptest.NewRecorder()
 	h.ServeHTTP(rr, httptest.NewRequest("GET", target, nil))
@@ -417,7 +418,7 @@ func TestHandlersAndClient(t *testing.T) {
 	ev.Rapid(t, "handlers-and-client", 3000, 100000, func(t *rapid.T) {
 		c := Case{Success: rapid.Bool().Draw(t, "success"), Server: rapid.SampledFrom([]string{"Oryx", "srs/3", "", "X Y"}).Draw(t, "server")}
 		if rapid.IntRange(0, 2).Draw(t, "cb") == 0 {
-			c.Callback = rapid.SampledFrom([]string{"cb", "jQuery123_456", "a.b.c"}).Draw(t, "cbname")
+			c.Callback = rapid.SampledFrom([]string{"cb", "jQuery123_456", "a.b.c", "cb%d", "f%s"}).Draw(t, "cbname")
 		}
 		cl := []string{}
 		nt := c.Callback != ""
